@@ -259,18 +259,34 @@ def discharge(obligations: list, timeout_ms: int = 10000, jobs: int = 0, use_cvc
                           ob.kind == 'cover'))
     results: list[Optional[Result]] = [None] * len(obligations)
     njobs = jobs or min(16, os.cpu_count() or 4)
-    if len(jobs_list) <= 1 or njobs == 1:
-        outs = [_work(j) for j in jobs_list]
-    else:
+
+    def run(job_subset):
+        if len(job_subset) <= 1 or njobs == 1:
+            return [_work(j) for j in job_subset]
         # every job carries the wall-clock deadline of the batch: a run in which (after a change to the code under
         # contract) most goals time out in every stage must not take hours - jobs started after the deadline only get
         # the short first stage
         deadline = time.time() + max(150.0, 3.0 * timeout_ms / 1000.0)
-        outs = _pool(njobs).map(_work, [j + (deadline,) for j in jobs_list], chunksize=1)
+        return _pool(njobs).map(_work, [j + (deadline,) for j in job_subset], chunksize=1)
+    # a cover that also exists with a candidate witness conjoined ('hinted') waits for that one: when the witness fits,
+    # the plain query (satisfiability under quantified invariants, usually a time-out) is not needed
+    hinted = {(ob.name, ob.path) for ob in obligations if ob.kind == 'cover' and ob.note == 'hinted'}
+    second = [j for j in jobs_list if obligations[j[0]].kind == 'cover' and obligations[j[0]].note != 'hinted'
+              and (obligations[j[0]].name, obligations[j[0]].path) in hinted]
+    second_ids = {j[0] for j in second}
+    outs = run([j for j in jobs_list if j[0] not in second_ids])
+    witnessed = {(obligations[o[0]].name, obligations[o[0]].path) for o in outs
+                 if obligations[o[0]].kind == 'cover' and obligations[o[0]].note == 'hinted' and o[1] == 'sat'}
+    outs += run([j for j in second if (obligations[j[0]].name, obligations[j[0]].path) not in witnessed])
+    for j in second:
+        if (obligations[j[0]].name, obligations[j[0]].path) in witnessed:
+            outs.append((j[0], 'sat', {}, 'covered by the hinted witness of the same cover', 'witness-hint', 0.0))
     for idx, st, model, reason, backend, dt in outs:
         ob = obligations[idx]
         if ob.kind == 'cover':
             status = {'sat': 'covered', 'unsat': 'uncovered', 'unknown': 'unknown'}[st]
+            if ob.note == 'hinted' and status == 'uncovered':
+                status = 'unknown'          # the candidate witness does not fit: says nothing about the cover itself
         else:
             status = {'unsat': 'proved', 'sat': 'refuted', 'unknown': 'unknown'}[st]
         results[idx] = Result(ob.name, status, backend, dt, model, ob.lineno, ob.path, ob.note, ob.kind, reason,
